@@ -1,5 +1,6 @@
-From UV Require Import Lib.Base Model.FsPoll.
+From UV Require Import Lib.Base Model.FsPoll Model.Inotify.
 Require Extraction.
 Require Import ExtrOcamlBasic.
 Extraction Language OCaml.
-Extraction "m_c17.ml" N.succ Z.succ FsPoll.init FsPoll.run FsPoll.statbuf_eq FsPoll.zero_sb.
+Extraction "m_c17.ml" N.succ Z.succ FsPoll.init FsPoll.run FsPoll.statbuf_eq FsPoll.zero_sb
+  Inotify.iinit Inotify.irun Inotify.ev_bits.
